@@ -201,8 +201,13 @@ def injections(ctx):
                 add("%s-%s-%s-dup-otherfile" % (btag, u, name), f3, argv + ["extra.circom"], "duplicate-definition", uncond=False)
         # the open question of DESIGN §4: arguments without the .circom suffix
         add("%s-nosuffix-missing" % btag, files, argv + ["nosuchfile.txt"], "non-circom-argument", uncond=False)
-        add("%s-nosuffix-existing" % btag, dict(files, **{"notes.txt": USER_B}), argv + ["notes.txt"], "non-circom-argument", uncond=False)
+        # (its own template: since the repair the file is read, and a copy of b.circom would be a duplicate definition)
+        add("%s-nosuffix-existing" % btag, dict(files, **{"notes.txt": NOTES_TXT}), argv + ["notes.txt"], "non-circom-argument", uncond=False)
     return out
+
+
+NOTES_TXT = ("pragma circom 2.0.0;\ntemplate Notes(n) {\n    signal input in;\n    signal output out;\n"
+             "    out <== in * n;\n}\n")
 
 
 def has_error(events):
@@ -283,7 +288,10 @@ def run(ctx, proofs):
                 if cls == "duplicate-definition":
                     applicable = True              # a definition is dropped whichever way it is detected
                 if cls == "non-circom-argument":
-                    applicable = True
+                    # since the repair C02-non-circom-argument (fix a7109ba) a named path that is not a directory
+                    # is an input file whatever its suffix: a missing one must be reported; an existing one is
+                    # read like any other named file and is judged by clean_problems below
+                    applicable = p.tag.endswith("-nosuffix-missing")
                 if applicable:
                     st["applicable"] += 1
                     if err:
@@ -356,10 +364,11 @@ def run(ctx, proofs):
             "unreadable file: the check runs as root, so chmod 000 does not make a file unreadable (recorded per run as readable_anyway); "
             "the class is exercised with invalid UTF-8 content, which makes read_to_string fail the same way",
             "a directory named x.circom is a directory for add_files (best-effort traversal), not an unreadable file",
-            "decision on the open question of DESIGN §4 C03: an argument without the `.circom` suffix (existing or not) is skipped by "
+            "decision on the open question of DESIGN §4 C03: an argument without the `.circom` suffix (existing or not) used to be skipped by "
             "FileStack::add_files without any report; judged against the property text (`a file named on the command line cannot be opened`, "
-            "`every user-specified file was read`) this is a silent failure, recorded as known finding C02-non-circom-argument "
-            "(include_logic.rs is outside this property's repair area)",
+            "`every user-specified file was read`) that was a silent failure (C02-non-circom-argument, repaired by fix a7109ba in "
+            "include_logic.rs): a named path that is not a directory is now always an input file; the two witnesses stay in the matrix "
+            "(missing: an error must be displayed; existing: the file must be read and analysed)",
             "the ground truth and the stage outputs are as for C03 (harness e2e); rendering is a black box",
         ]
     finally:
